@@ -33,6 +33,7 @@ type World struct {
 	srcCache map[string][]byte
 	purePats []string
 	inferredPure map[string]bool
+	support      map[string][]string
 }
 
 const modulePath = "github.com/titpetric/vuego"
